@@ -61,8 +61,13 @@ class _Future(Future):
             if not self.done():
                 self._me_done_callbacks.append(fn)
                 return
-        # Already done -> call it directly
-        fn(self)
+        # Already done -> call it directly.
+        # As in _me_invoke_callbacks (and concurrent.futures.Future), an
+        # exception from the callback is logged rather than propagated.
+        try:
+            fn(self)
+        except Exception:
+            LOG.exception("exception calling callback for %r", self)
 
     def cancel(self):
         with self._me_lock:
